@@ -63,6 +63,9 @@ impl TraceOut {
         }
         self.events += events.len();
         self.runs += 1;
+        // complete runs reach the file at once: if the process dies inside the code under test later on, what was
+        // recorded so far is still there to be judged
+        self.f.flush()?;
         Ok(())
     }
     pub fn finish(mut self) -> anyhow::Result<(usize, usize)> {
